@@ -37,3 +37,8 @@ Definition crockford_char (c : N) : bool :=
   || (in_range 65 90 c && negb (N.eqb c 73) && negb (N.eqb c 76) && negb (N.eqb c 79) && negb (N.eqb c 85)).
 Definition ulid_format (s : list N) : bool :=
   Nat.eqb (length s) 26 && forallb crockford_char s && match s with c :: _ => N.leb c 55 | [] => false end.
+
+(** message.go Context / SetContext / Copy: a message with its context (0 = none set; Context()
+    then answers context.Background()).  "The context is not propagated to the copy." *)
+Definition set_context (mc : msg * N) (c : N) : msg * N := (fst mc, c).
+Definition copy_c (mc : msg * N) : msg * N := (fst mc, 0).
